@@ -11,10 +11,15 @@ pub(crate) struct CreateContent {
 }
 
 impl CreateContent {
-  pub(crate) fn from_create(create: &Create, input: &InputTarget, env: &mut Env) -> Result<Self> {
+  pub(crate) fn from_create(
+    create: &Create,
+    input: &InputTarget,
+    env: &mut Env,
+    options: &Options,
+  ) -> Result<Self> {
     match input {
       InputTarget::Path(path) => {
-        let spinner = if env.err().is_styled_term() {
+        let spinner = if env.err().is_styled_term() && !options.quiet {
           let style = ProgressStyle::default_spinner()
             .template("{spinner:.green} {msg:.bold}…")
             .tick_chars(consts::TICK_CHARS);
